@@ -138,7 +138,15 @@ func (m *Engine) dispatchKeys(binds map[string]inputrc.Bind) (bind inputrc.Bind,
 			// The call to PeekKey at the beginning of this function
 			// used to be PopKey. We don't pop the key unless we have
 			// an empty byte.
-			core.PopKey(m.keys)
+			//
+			// When a shorter bind had matched, this key only ruled the longer
+			// ones out: it is not part of the sequence, and stays on the stack
+			// to be dispatched on its own (eg. ESC then d, read at once in Vim).
+			if m.active.Action != "" && len(read) > 1 {
+				read = read[:len(read)-1]
+			} else {
+				core.PopKey(m.keys)
+			}
 
 			break
 		}
